@@ -108,6 +108,9 @@ def corpus_signatures(only=None):
     return out
 
 
+CORPUS_CHUNK = 40
+
+
 def _corpus_job(items):
     return [corpus_signatures(only=set(items))]
 
@@ -120,7 +123,7 @@ def check_corpus(only=None):
         pinned = {k: v for k, v in pinned.items() if k in only}
     else:
         now = {}
-        for part in pool.pmap(_corpus_job, sorted(pinned), chunk=40):
+        for part in pool.pmap(_corpus_job, sorted(pinned), chunk=CORPUS_CHUNK):
             now.update(part)
     probs = []
     for pkg in sorted(pinned):
@@ -131,7 +134,7 @@ def check_corpus(only=None):
             paths = sorted(p for p in set(a) | set(b or {}) if a.get(p) != (b or {}).get(p))
             probs.append((f"C03|pinned_corpus_drift", f"corpus package {pkg} ({index[pkg]['program']}) entry {e}: path {paths[0]} has signature "
                           f"{(b or {}).get(paths[0])}, pinned {a.get(paths[0])} ({len(ents)} entr{'y' if len(ents) == 1 else 'ies'} differ)",
-                          {"mode": "corpus", "pkg": pkg}))
+                          {"mode": "corpus", "pkg": pkg, "before": (lambda L: L[(L.index(pkg) // CORPUS_CHUNK) * CORPUS_CHUNK: L.index(pkg)])(sorted(pinned))}))
     return probs, len(pinned), sum(len(v) for v in pinned.values())
 
 
@@ -263,7 +266,8 @@ def replay(case):
     if m == "hist":
         return driver.replay(P, case)
     if m == "corpus":
-        probs, _, _ = check_corpus(only={case["pkg"]})
+        # the packages evaluated before it in the same process come first (hidden per-process state may be what matters)
+        probs, _, _ = check_corpus(only=set(case.get("before", [])) | {case["pkg"]})
         return [Violation(P, k, what, c) for k, what, c in probs if c["pkg"] == case["pkg"]]
     if m == "placement":
         probs, _ = check_placements()
